@@ -793,6 +793,7 @@ def rule_rangecoder(facts):
 
 def run(ctx, t0):
     facts = ctx.facts()
+    pat.FACTS = facts
     rules = [rule_lzma2_writer(facts), rule_multibyte_writer(facts), rule_block_header(facts), rule_padding(facts),
              rule_backward(facts), rule_lzma_header(facts), rule_rangecoder(facts)]
     expl = ("Static, writer-side framing clauses only: guards and emitted-byte terms of the LZMA2 / multi-byte / XZ / .lzma "
